@@ -404,7 +404,8 @@ def exp_iscallable(e):
     if inspect.isclass(x):
         return one(issubclass(x, cabc.Callable))
     if typing.get_origin(x) is not None:
-        return BOTH
+        r = resolve(x)
+        return BOTH if (inspect.isclass(r) and issubclass(r, cabc.Callable)) else one(False)
     return one(False) if not callable(x) else BOTH
 
 
